@@ -38,16 +38,22 @@ BAD_OPTIONS = [lambda mag: dict(dt_init=0.1 * (1 + mag), dt_max=0.1), lambda mag
                lambda mag: dict(sparse_solver="cupy"),                       # needs gpu=True: two options that contradict each other
                lambda mag: dict(gpu=True), lambda mag: dict(sparse_solver="umfpack"), lambda mag: dict(sparse_solver="pardiso"),
                lambda mag: dict(sparse_solver="cupy", gpu=True)]
-SEED_DIFFS = ["fewer-terminals", "no-terminals", "fewer-holes", "one-more-hole", "layer", "name", "probe-points", "other-kind"]
+SEED_DIFFS = ["fewer-terminals", "no-terminals", "fewer-holes", "one-more-hole", "layer", "name", "probe-points", "other-kind",
+              # history on one device object: the seed is computed on the very device that is simulated afterwards, and a layer
+              # parameter of that device is edited IN PLACE in between (the seed belongs to a different physical device)
+              "layer-edited-in-place:london_lambda", "layer-edited-in-place:thickness", "layer-edited-in-place:coherence_length"]
 
 
 def seed_device(tdgl, dev, how):
     """A meshed device equal to `dev` except in one respect."""
     from tdgl.geometry import circle
-    kw = dict(layer=dev.layer, film=dev.film, holes=list(dev.holes), terminals=[t.copy() for t in dev.terminals],
+    # nothing is shared with the (cached) device `dev`: the caller may edit the result in place
+    kw = dict(layer=dev.layer.copy(), film=dev.film.copy(), holes=[h.copy() for h in dev.holes], terminals=[t.copy() for t in dev.terminals],
               probe_points=dev.probe_points, length_units=dev.length_units)
     name = dev.name
-    if how == "fewer-terminals":
+    if how == "same":
+        pass
+    elif how == "fewer-terminals":
         kw["terminals"] = kw["terminals"][:-1] if len(kw["terminals"]) > 2 else []
     elif how == "no-terminals":
         kw["terminals"] = []
@@ -94,7 +100,8 @@ def matrix(ctx):
                                 "ashape": 16}.get(cls, 1)
                     for v in range(variants):
                         if cls in ("options", "options_reused", "polygon", "device", "terminal", "seed", "ashape") and mag != 1.0 \
-                                and not (cls in ("options", "options_reused") and v in (0, 1)) and not (cls == "polygon" and v >= 3):
+                                and not (cls in ("options", "options_reused") and v in (0, 1)) and not (cls == "polygon" and v >= 3) \
+                                and not (cls == "seed" and v >= 8):
                             continue
                         if cls in ("options", "options_reused") and v in ENV_DEPENDENT and not _missing(ENV_DEPENDENT[v]):
                             continue            # that back end is installed here: the options are usable
@@ -216,7 +223,8 @@ def illposed_run(tdgl, p, base_tmp=None):
                 # respect (everything else — name, layer, film, probe points, units — is equal): fewer holes/terminals (its
                 # polygons are a subset), no terminal at all, one more hole, another layer, another name, other probe points
                 how = SEED_DIFFS[v % len(SEED_DIFFS)]
-                other = seed_device(tdgl, dev, how)
+                edit = how.split(":")[1] if how.startswith("layer-edited-in-place") else None
+                other = seed_device(tdgl, dev, "same" if edit else how)
                 o2 = tdgl.SolverOptions(**dict(kw, output_file=None))
                 tempfile.tempdir = old_tempdir
                 seed_dir = tempfile.mkdtemp(prefix="seed", dir=base_tmp)
@@ -229,7 +237,15 @@ def illposed_run(tdgl, p, base_tmp=None):
                     # independent of Device.__eq__ (the code under test): the two devices differ in a respect we can name
                     sig = lambda d: (d.name, len(d.holes), len(d.terminals), float(d.layer.coherence_length),
                                      None if d.probe_points is None else np.asarray(d.probe_points).round(9).tolist())
-                    if sig(seed.device) == sig(dev):
+                    if edit:
+                        # the difference is made by the harness itself, after the seed was computed (small and large edits)
+                        factor = {1.0: 2.0, 1e-3: 1.001, 1e-6: 1.000001}.get(mag, 2.0)
+                        setattr(other.layer, edit, getattr(other.layer, edit) * factor)
+                        if edit == "coherence_length":
+                            other.make_mesh(max_edge_length=0.8 * factor, smooth=0)
+                        dev = other
+                        solve_kw["terminal_currents"] = seed_currents(other)
+                    elif sig(seed.device) == sig(dev):
                         raise core.MachineryFailure(f"C19: the seed device ({how}) does not differ from the simulated device (vacuous)")
                 finally:
                     DH.__enter__, DH.__exit__ = w_enter, w_exit
